@@ -49,7 +49,10 @@ RULE = ("random ranked base rule systems (3-6 variables, mostly month/year, date
         "reforms by dotted path, extensions by package name) with generated reform modules (mostly variables-only reforms, "
         "chains of 0-2) and a generated extension package shipping a variable and parameters, 3-6 calls per baseline "
         "including repeated arguments; the baseline's variables, parameter names, parameter values and answers are "
-        "compared before and after every call")
+        "compared before and after every call.  Third stream (oracle only, n/10 cases): a float variable declared with "
+        "default -0.0 / inf / -inf / NaN / a non-integer / a float32 denormal, neutralised through a reform, a copy, a "
+        "chained reform or a copy of a reform, inputs given: the answer is compared bit for bit (float32) with the "
+        "declared default.  Parameter updates also use bounds before year 1000 (0001-01-01 .. 0999-12-31)")
 TRUSTED = ["harness/rules.py: compiler from rule-system terms to real Variable subclasses (formulas call the public API)",
            "harness/c14.py: construction of Variable / Reform subclasses from the script"]
 ASSUMPTIONS = [
@@ -197,6 +200,11 @@ def _gen_ups(rng, nparams):
         stop = None
         if rng.random() < 0.4:
             stop = [start[0] + rng.choice([0, 1]), 12, 31]
+        if rng.random() < 0.25:
+            # bounds before year 1000 ("since 0900-01-01", "for year:0999:2"): their text form has
+            # to sort against the four-digit dates of the history
+            start = rng.choice([[1, 1, 1], [500, 6, 1], [900, 1, 1], [999, 1, 1], [999, 7, 1]])
+            stop = rng.choice([None, None, [999, 12, 31], [1000, 12, 31], [start[0], 12, 31], [2016, 12, 31]])
         ups.append([k, start, stop, rng.choice([rng.randint(-4, 30), rng.randint(10, 20), None])
                     if rng.random() < 0.15 else rng.randint(-4, 30),
                     rng.choice([0, 1])])           # the handle: param.update / param.values_history.update
@@ -409,6 +417,19 @@ def gen_runner_case(rng):
             "reforms": reforms, "calls": calls, "ext": ext, "reqs": reqs}
 
 
+SPECIAL_DEFAULTS = ["-0.0", "inf", "-inf", "nan", "0.0", "-2.5", "1e-40"]
+
+
+def gen_special_case(rng, k):
+    """A float variable declared with a default the model's integers cannot carry (-0.0, the
+    infinities, NaN, a non-integer, a float32 denormal), neutralised on a derived system."""
+    n = rng.randint(1, 5)
+    return {"kind": "special", "default": SPECIAL_DEFAULTS[k % len(SPECIAL_DEFAULTS)], "persons": n,
+            "via": rng.choice(["reform", "clone", "chained", "clone-of-reform"]),
+            "formula": rng.random() < 0.7, "unit": rng.choice(["month", "year"]),
+            "input": [rng.randint(-20, 100) for _ in range(n)], "base_first": rng.random() < 0.5}
+
+
 def _boundaries(u):
     _k, start, stop, _v = u[:4]
     out = [start, _shift(start, -1)]
@@ -418,14 +439,18 @@ def _boundaries(u):
 
 
 def _shift(d, n):
-    x = datetime.date(*d) + datetime.timedelta(days=n)
+    try:
+        x = datetime.date(*d) + datetime.timedelta(days=n)
+    except OverflowError:          # the day before 0001-01-01
+        x = datetime.date(*d)
     return [x.year, x.month, x.day]
 
 
 def generate(rng, tier):
     n = {"quick": 260, "escalated": 900, "thorough": 4000}[tier]
     cases = [gen_case(rng) for _ in range(n)]
-    return cases + [gen_runner_case(rng) for _ in range(max(30, n // 8))]
+    cases += [gen_runner_case(rng) for _ in range(max(30, n // 8))]
+    return cases + [gen_special_case(rng, k) for k in range(max(28, n // 10))]
 
 
 # ---------------------------------------------------------------------------------------
@@ -756,9 +781,86 @@ def _first_diff(a, b):
     return f"{a} -> {b}"
 
 
+def _bits(a):
+    return numpy.asarray(a, dtype=numpy.float32).tobytes().hex()
+
+
+def run_special(case):
+    """answers as float32 bit patterns: [base before, derived (inputs given), base after]"""
+    n = case["persons"]
+    pop = {"count": 1, "ids": [0] * n, "roles": [0] + [1] * (n - 1)}
+    unit = case["unit"]
+    sysj = {"vars": [{"ent": "person", "type": "float", "unit": unit, "end": None, "formulas": [], "default": 0, "neutral": False},
+                     {"ent": "person", "type": "float", "unit": unit, "end": None, "formulas": [], "default": 0, "neutral": False}],
+            "params": [], "switches": [], "max_loops": 1}
+    nref = {"vars": [None] * 4, "max_loops": 1, "nflat": 0}
+    switches = set()
+    period = [unit, [2018, 1, 1], 1]
+    d = {"ent": "person", "type": "float", "unit": unit, "end": None, "default": case["default"],
+         "formulas": [[[1, 1, 1], ["bin", "add", ["dep", 0, "same", "plain"], ["const", 1]]]] if case["formula"] else [],
+         "eff_ent": "person", "eff_type": "float"}
+    with warnings.catch_warnings():
+        warnings.simplefilter("ignore")
+        base = rules.build_system(sysj, switches)
+        base.replace_variable(make_class(base, 1, d, nref, switches))     # the declared default: float(text)
+
+        def answer(tbs, with_input):
+            sim = rules.build_simulation(tbs, pop, {}, nref)
+            sim.set_input("v0", rules.mk_period(period), numpy.array(case["input"]))
+            if with_input:
+                sim.set_input("v1", rules.mk_period(period), numpy.array(case["input"], dtype=numpy.float32) + 3)
+            a = sim.calculate("v1", rules.mk_period(period))
+            return [_bits(a), str(a.dtype), len(a)]
+
+        out = {}
+        if case["base_first"]:
+            out["base_before"] = answer(base, False)
+        via = case["via"]
+        if via == "reform":
+            derived = make_reform([["neutralize", 1]], nref, switches)(base)
+        elif via == "clone":
+            derived = base.clone()
+            derived.neutralize_variable("v1")
+        elif via == "chained":
+            derived = make_reform([["neutralize", 1]], nref, switches)(make_reform([["neutralize", 0]], nref, switches)(base))
+        else:
+            derived = make_reform([["neutralize", 1]], nref, switches)(base).clone()
+        out["derived"] = answer(derived, True)
+        out["derived_default"] = _bits([derived.get_variable("v1").default_value])
+        out["neutralized"] = bool(derived.get_variable("v1").is_neutralized)
+        out["base_after"] = answer(base, False)
+        out["base_neutralized"] = bool(base.get_variable("v1").is_neutralized)
+    return out
+
+
+def oracle_special(case, obs):
+    n = case["persons"]
+    declared = numpy.float32(float(case["default"]))
+    want = _bits(numpy.full(n, declared, dtype=numpy.float32))
+    got, dtype, size = obs["derived"]
+    if not obs["neutralized"]:
+        return "special-neutralised: the variable of the derived system is not neutralised"
+    if dtype != "float32" or size != n:
+        return f"special-neutralised: answer of dtype {dtype} and size {size}"
+    if case["default"] == "nan":
+        ok = bool(numpy.isnan(numpy.frombuffer(bytes.fromhex(got), dtype=numpy.float32)).all())
+    else:
+        ok = got == want                                  # bit for bit: the sign of zero counts
+    if not ok:
+        return (f"special-neutralised: float variable declared with default {case['default']}, neutralised through "
+                f"{case['via']}, inputs given: answers {got} (float32 bits), the default is {want}")
+    if obs["base_neutralized"]:
+        return "special-frame: the baseline's variable became neutralised"
+    if "base_before" in obs and obs["base_before"] != obs["base_after"]:
+        return f"special-frame: the baseline answered {obs['base_before']} before and {obs['base_after']} after the derivation"
+    return None
+
+
 def run_impl(case):
     if case.get("kind") == "runner":
         return run_runner(case)
+    if case.get("kind") == "special":
+        return run_special(case)
     sysj, pop = case["sys"], case["pop"]
     nref = {"vars": [None] * case["nnames"], "max_loops": sysj.get("max_loops", 1)}
     switches = set()
@@ -885,7 +987,7 @@ def cstep(s, case):
 
 
 def coq_case(case):
-    if _key(case) in _SKIP or case.get("kind") == "runner":
+    if _key(case) in _SKIP or case.get("kind") in ("runner", "special"):
         return "Corr_C14.CSkip"             # the test-runner stream is oracle only
     y0, ny = case["window"]
     return (f"(CCase {cz(y0)} {rules.cnat(ny)} {rules.csys(case['sys'], None)} {rules.cpop(case['pop'])} "
@@ -893,7 +995,7 @@ def coq_case(case):
 
 
 def obs_for_coq(case, obs):
-    if case.get("kind") == "runner" and not isinstance(obs, Err):
+    if case.get("kind") in ("runner", "special") and not isinstance(obs, Err):
         return "skip"
     return obs
 
@@ -1142,6 +1244,8 @@ def oracle(case, obs):
         return None if obs == "skip" else f"driver: {obs.kind} {obs.msg}"
     if case.get("kind") == "runner":
         return oracle_runner(case, obs)
+    if case.get("kind") == "special":
+        return oracle_special(case, obs)
     findings, f20 = _walk(case, obs)
     if findings:
         cls, text = findings[0]
@@ -1166,6 +1270,8 @@ def known(case, obs, msg):
 def nontrivial(case, obs):
     if obs == "skip" or isinstance(obs, Err):
         return False
+    if case.get("kind") == "special":
+        return obs["neutralized"]
     if case.get("kind") == "runner":
         return any(chain and with_ext and rec["error"] is None for (chain, with_ext), rec in zip(case["calls"], obs["calls"]))
     derived_ok = any(s[0] in ("clone", "reform", "mod") and o is None for s, o in zip(case["steps"], obs))
@@ -1181,6 +1287,8 @@ def classify(case, obs):
         return "driver-error"
     if case.get("kind") == "runner":
         return "test-runner"
+    if case.get("kind") == "special":
+        return "special-default " + case["default"]
     kinds = set()
     for s in case["steps"]:
         if s[0] == "clone":
